@@ -48,7 +48,7 @@ type State struct {
 	F uint32
 }
 
-func (s State) Flag(i int) Abs          { return Abs((s.F >> (2 * uint(i))) & 3) }
+func (s State) Flag(i int) Abs { return Abs((s.F >> (2 * uint(i))) & 3) }
 func (s State) WithFlag(i int, a Abs) State {
 	s.F = s.F&^(3<<(2*uint(i))) | uint32(a)<<(2*uint(i))
 	return s
@@ -122,7 +122,7 @@ type Violation struct {
 	State   State
 	Witness []string
 	Key     string
-	Count   int // number of (state, path) variants folded into this report
+	Count   int             // number of (state, path) variants folded into this report
 	Chain   []*ssa.Function // call chain from the root to Fn
 }
 
